@@ -113,7 +113,15 @@ def run(modname, fname, kwargs, mode):
     fn = getattr(mod, fname)
     t = time.time()
     try:
-        r = fn(**kwargs)
+        if mode == 'model':
+            # concrete values, but under CrossHair's tracer: its patches (bytes.join over abstract bytes, ...) are the
+            # ones the symbolic run uses
+            from crosshair.core_and_libs import standalone_statespace
+
+            with standalone_statespace:
+                r = bool(fn(**kwargs))
+        else:
+            r = fn(**kwargs)
         return dict(result=bool(r), exc=None, wall_s=round(time.time() - t, 2))
     except Exception as e:  # an exception escaping the harness violates `post: _` just like False
         return dict(result=False, exc=''.join(traceback.format_exception_only(type(e), e)).strip(), wall_s=round(time.time() - t, 2))
